@@ -356,9 +356,9 @@ def gen_cases(tier, seed, work, log):
         pick = []
         for cfg in sorted({a['cfg'] for a in abstract}):
             grp = [a for a in abstract if a['cfg'] == cfg]
-            pick += grp if cfg < 2 else rng.sample(grp, min(3500, len(grp)))
+            pick += grp if cfg < 2 else rng.sample(grp, min(2500, len(grp)))
     cases = [materialise(rng, ac, 't%d' % i) for i, ac in enumerate(pick)]
-    plan = {'quick': dict(small=150, medium=30, large=2), 'thorough': dict(small=2500, medium=500, large=24)}[tier]
+    plan = {'quick': dict(small=150, medium=30, large=2), 'thorough': dict(small=2000, medium=400, large=24)}[tier]
     i = 0
     for size in ('large', 'medium', 'small'):
         for _ in range(plan[size]):
@@ -403,7 +403,7 @@ def normalize(case, events):
     bisection WITNESSES (positions in the observed sorted sequences) that TLC re-verifies."""
     out = []
     total = sum(len(f['set']) for f in case['files'])
-    small = total <= 48
+    small = total <= 64        # small cases are also checked with the definitional (quadratic) operators
     rkeys = {}      # file no -> sorted key list as the reader yielded it
     ritems = {}
     srcs = []
@@ -468,15 +468,45 @@ def normalize(case, events):
     return out
 
 
+def _cost(evs):
+    return sum(2 * len(e.get('items', ())) + len(e.get('set', ())) + len(e.get('q', ())) + 120 for e in evs)
+
+
+def _pack(sid, evs):
+    """(sid, cost, number of events, ndjson text)"""
+    return sid, _cost(evs), len(evs), ''.join(json.dumps(e, separators=(',', ':')) + '\n' for e in evs)
+
+
+_G = {}
+
+
+def _norm_job(i):
+    c = _G['cases'][i]
+    return _pack(c['id'], normalize(c, _G['traces'][c['id']]))
+
+
+def normalize_all(cases, traces, procs=8):
+    """normalise + serialise every case (forked workers; the inputs are inherited, only the text comes back)"""
+    if len(cases) < 3000:                 # (forking a big process costs more than 2 s of single-process work)
+        return [_pack(c['id'], normalize(c, traces[c['id']])) for c in cases]
+    import multiprocessing as mp
+    _G['cases'], _G['traces'] = cases, traces
+    try:
+        with mp.get_context('fork').Pool(procs) as pool:
+            return pool.map(_norm_job, range(len(cases)), chunksize=1)     # largest first, one case per task
+    finally:
+        _G.clear()
+
+
 def _validate_shard(args):
-    i, evs, work = args
+    i, texts, nev, work = args
     rundir = os.path.join(work, 'tv%s' % i)
     os.makedirs(rundir, exist_ok=True)
     with open(os.path.join(rundir, 'trace.ndjson'), 'w') as f:
-        for e in evs:
-            f.write(json.dumps(e, separators=(',', ':')) + '\n')
+        for t in texts:
+            f.write(t)
     r = V.tlc_run('Trace_HintFile', 'Trace_HintFile.cfg', rundir, workers=1, timeout=3000, java=JAVA_SHORT)
-    res = {'bad': [], 'drift': [], 'consumed': -1, 'out': r['out'], 'wall': r['wall'], 'states': r['distinct'], 'n': len(evs)}
+    res = {'bad': [], 'drift': [], 'consumed': -1, 'out': r['out'], 'wall': r['wall'], 'states': r['distinct'], 'n': nev}
     m = re.findall(r'<<"VERIF-RESULT", "(.*)">>', r['out'])
     if m:
         js = m[-1].encode('utf8').decode('unicode_escape') if '\\' in m[-1] else m[-1]
@@ -487,8 +517,8 @@ def _validate_shard(args):
             res['consumed'] = d.get('consumed', -1)
         except Exception as ex:
             res['error'] = 'unparsable VERIF-RESULT: %s' % ex
-    if r['rc'] != 0 or r['error'] or r['timeout'] or res['consumed'] != len(evs):
-        res['error'] = res.get('error') or ('TLC rc=%s error=%s consumed=%s/%s' % (r['rc'], r['error'], res['consumed'], len(evs)))
+    if r['rc'] != 0 or r['error'] or r['timeout'] or res['consumed'] != nev:
+        res['error'] = res.get('error') or ('TLC rc=%s error=%s consumed=%s/%s' % (r['rc'], r['error'], res['consumed'], nev))
     try:
         os.remove(os.path.join(rundir, 'trace.ndjson'))
     except OSError:
@@ -496,14 +526,15 @@ def _validate_shard(args):
     return res
 
 
-def validate(per_case, work, shards, tag=''):
-    """per_case: list of (sid, [normalised events]); balanced over `shards` TLC processes (1 worker each)."""
-    bins = [[0, []] for _ in range(max(1, min(shards, len(per_case))))]
-    for sid, evs in sorted(per_case, key=lambda x: -sum(len(e.get('items', ())) + len(e.get('set', ())) + len(e.get('q', ())) + 1 for e in x[1])):
+def validate(packed, work, shards, tag=''):
+    """packed: list of (sid, cost, nevents, ndjson text) per case; balanced over `shards` TLC processes (1 worker each)."""
+    bins = [[0, [], 0] for _ in range(max(1, min(shards, len(packed))))]
+    for sid, cost, nev, text in sorted(packed, key=lambda x: -x[1]):
         b = min(bins, key=lambda b: b[0])
-        b[0] += sum(len(e.get('items', ())) + len(e.get('set', ())) + len(e.get('q', ())) + 1 for e in evs)
-        b[1].extend(evs)
-    jobs = [('%s%d' % (tag, i), b[1], work) for i, b in enumerate(bins) if b[1]]
+        b[0] += cost
+        b[1].append(text)
+        b[2] += nev
+    jobs = [('%s%d' % (tag, i), b[1], b[2], work) for i, b in enumerate(bins) if b[1]]
     with ThreadPoolExecutor(max_workers=len(jobs)) as ex:
         results = list(ex.map(_validate_shard, jobs))
     bad, drift, states, nev = [], [], 0, 0
@@ -609,7 +640,7 @@ def self_test(cases, traces, work, log):
         for tag, cev in cs:
             sid = cev[0]['sid']
             want[sid] = tag
-            per.append((sid, normalize(c, cev)))
+            per.append(_pack(sid, normalize(c, cev)))
         picked += 1
         if picked >= 6:
             break
@@ -681,6 +712,7 @@ def run(pid, tier, seed, work, log, replay=None):
         log('harness built; %d cases' % len(cases))
         big = sorted(cases, key=lambda c: -sum(len(f['set']) for f in c['files']))
         order = big[:]                                            # large cases first in every shard
+        V.GOENV.setdefault('GOMAXPROCS', '2')                     # 16 single-threaded harness processes side by side
         traces, crashed = V.run_scenarios(tb, order, work, runname='TestVerifHint')
         if crashed:
             raise V.Inconclusive('harness process died: %s' % crashed[0][2][-800:])
@@ -689,7 +721,8 @@ def run(pid, tier, seed, work, log, replay=None):
             raise V.Inconclusive('no complete trace for cases %s' % missing[:5])
         log('executed %d cases on the real code (%.1fs)' % (len(cases), time.time() - t0))
         # ---- (c) TLC validates the observations
-        per = [(c['id'], normalize(c, traces[c['id']])) for c in cases]
+        per = normalize_all(cases, traces)
+        log('observations normalised (%.1fs)' % (time.time() - t0))
         r = validate(per, work, 12 if tier == 'thorough' else 6)
         log('TLC validated %d observation events of %d cases (%.1fs wall of the slowest shard)' % (r['events'], len(per), r['wall']))
         ntest = 0
